@@ -162,6 +162,29 @@ static void emit(const char* type, const Tally& t, bool exhaustive) {
   std::fflush(stdout);
 }
 
+// a few cases written out for the evidence file (what a case looks like)
+static void sample(const char* type, const char* cls, unsigned long long hi, unsigned long long lo, int tfel, int dec, int libc) {
+  char api[64]; std::snprintf(api, sizeof api, "fpclassify<%s>", type);
+  vf::J j; j.s("type", type);
+  char b[64]; std::snprintf(b, sizeof b, "0x%04llx:%016llx", hi, lo); j.s("bits(se:mantissa or value)", b);
+  j.i("tfel", tfel).i("decoder", dec).i("glibc", libc);
+  vf::Reporter::emit("sample", api, cls, lo, 0, 0.5L, j.str(), "");
+}
+static void samples() {
+  for (uint32_t b : {0x00000001u, 0x7f800000u, 0xffc00001u, 0x3f800000u}) {
+    float x; std::memcpy(&x, &b, 4);
+    sample("float", CLS[decode_f(b)], 0, b, ie::fpclassify(x), fp_of(decode_f(b)), __fpclassifyf(x));
+  }
+#if LDBL_MANT_DIG == 64
+  const struct { uint16_t se; uint64_t m; } P[] = {{0, 0x8000000000000000ull}, {0x3fff, 0x4000000000000000ull}, {0x7fff, 0}, {0x7fff, 0x8000000000000000ull}};
+  for (auto& p : P) {
+    unsigned char raw[sizeof(long double)] = {0}; std::memcpy(raw, &p.m, 8); std::memcpy(raw + 8, &p.se, 2);
+    long double x; std::memcpy(&x, raw, sizeof x);
+    sample("ldouble", CLS[decode_ld(p.se, p.m)], p.se, p.m, ie::fpclassify(x), fp_of(decode_ld(p.se, p.m)), __fpclassifyl(x));
+  }
+#endif
+}
+
 template <typename F>
 static Tally parallel(unsigned nthreads, unsigned long long nblocks, F&& body) {
   Tally total; std::mutex mu; std::atomic<unsigned long long> next{0};
@@ -183,6 +206,7 @@ int main(int argc, char** argv) {
   const std::string what = "," + a.get("--what", "float,double,ldouble") + ",";
   auto wants = [&](const char* t) { return what.find(std::string(",") + t + ",") != std::string::npos; };
   const long nrand = a.cases;  // random mantissas per (sign, exponent[, integer bit])
+  samples();
   if (wants("float")) {
     // exhaustive: 256 blocks of 2^24 patterns
     Tally t = parallel(nth, 256, [](Tally& tt, unsigned long long blk) {
